@@ -435,9 +435,12 @@ package fun
 //@   ensures failed1: atomicval(stage) == 1 && old(atomicval(stage)) == 0 ==> result1 == ferr && result1 != nil && !errIs(result1, io_EOF)
 //@   ensures failed3: atomicval(stage) == 3 && old(atomicval(stage)) != 3 ==> result1 == serr && result1 != nil && !errIs(result1, io_EOF)
 //@   ensures skipped1: forall k: int :: old(calls(pf)) <= k && k < calls(pf) - 1 ==> errIs(callret1(pf, k), ErrIteratorSkip)
+//@   ensures truncates: old(atomicval(stage)) == 0 && calls(pf) > old(calls(pf)) && callret1(pf, calls(pf) - 1) != nil && !errIs(callret1(pf, calls(pf) - 1), io_EOF) && !errIs(callret1(pf, calls(pf) - 1), ErrIteratorSkip) ==> atomicval(stage) == 1 && result1 == callret1(pf, calls(pf) - 1) && calls(next) == old(calls(next))
+//@   ensures eofonly: old(atomicval(stage)) == 0 && atomicval(stage) >= 2 ==> calls(pf) > old(calls(pf)) && errIs(callret1(pf, calls(pf) - 1), io_EOF)
 //@   ensures skipped2: forall k: int :: old(calls(next)) <= k && k < calls(next) - 1 ==> errIs(callret1(next, k), ErrIteratorSkip)
 //@   loop 1 invariant atomicval(stage) == 0 && old(atomicval(stage)) == 0 && calls(pf) >= old(calls(pf)) && calls(next) == old(calls(next)) && (forall k: int :: old(calls(pf)) <= k && k < calls(pf) ==> errIs(callret1(pf, k), ErrIteratorSkip))
 //@   loop 2 invariant atomicval(stage) == 2 && (old(atomicval(stage)) == 0 || old(atomicval(stage)) == 2) && calls(next) >= old(calls(next)) && (old(atomicval(stage)) == 2 ==> calls(pf) == old(calls(pf))) && (forall k: int :: old(calls(next)) <= k && k < calls(next) ==> errIs(callret1(next, k), ErrIteratorSkip)) && (forall k: int :: old(calls(pf)) <= k && k < calls(pf) - 1 ==> errIs(callret1(pf, k), ErrIteratorSkip))
+//@   loop 2 invariant old(atomicval(stage)) == 0 ==> calls(pf) > old(calls(pf)) && errIs(callret1(pf, calls(pf) - 1), io_EOF)
 
 // Transform.Producer (map with skip): consumes input elements until one whose
 // input error and transform error are both nil: its transform result is
